@@ -119,6 +119,18 @@ def e_incomparable():
             for traits in (['PartialEq'], ['PartialOrd', 'PartialEq']):
                 yield Item('enum', I('A'), tparam(), [], False, [dw(traits), Attr('dw', opt('incomparable'))],
                            [variant(i, k) for i, k in enumerate(combo)])
+    # field-less enums with an integer `repr`, explicit discriminants and incomparable variants, with and without
+    # Clone/Copy next to PartialOrd (four code paths per configuration; round 6 seed C05-6b lost the incomparable
+    # check on one of them under `safe`)
+    for rp in ('u8', 'i16'):
+        for inc in ((0,), (1,), (2,), (0, 2)):
+            for traits in (['PartialEq', 'PartialOrd'], ['PartialEq', 'PartialOrd', 'Clone'],
+                           ['PartialEq', 'PartialOrd', 'Clone', 'Copy']):
+                for discrs in (None, {0: ('3', 3), 2: ('1', 1)}):
+                    vs = [Variant(I('V%d' % i), 'unit', [], [opt('incomparable')] if i in inc else [],
+                                  (discrs or {}).get(i)) for i in range(4)]
+                    yield Item('enum', I('A'), [], [], False,
+                               [Attr('repr', repr_=('idents', [I(rp)])), dw(traits)], vs)
     # option order inside one variant attribute
     for order in itertools.permutations(['skip_inner', 'incomparable', 'default']):
         yield Item('enum', I('A'), tparam(), [], False, [dw(['PartialEq', 'PartialOrd', 'Default', 'Debug'])],
@@ -469,6 +481,18 @@ def e_invalid():
         yield en([dw([MList(t, [MNameValue('crate', 'path', P('krate::zeroize'))])], gen_T())], [X(), Y()])
         yield en([dw([t], [Gen('param', 'T', I('T')), Gen('param', 'T', I('T'))])], [X(), Y()])
         yield en([dw([t], [Gen('custom', 'T: Clone')])], [X(), Y()])
+    # the use-case check counts *type* parameters only: lifetime and const parameters next to `T` change nothing
+    # (round 4 seed G02-4a counted const parameters; found again by the regression run of round 7)
+    for t in ['Clone', 'Debug', 'PartialEq', 'Hash']:
+        yield Item('struct', I('A'), [Param('ty', 'T'), Param('const', 'N', 'usize', comma=False)], [], False,
+                   [dw([t], gen_T())], [Variant(I('A'), 'tuple', [Field(0, '[T; N]', [])])])
+        yield Item('struct', I('A'), [Param('lt', "'a"), Param('ty', 'T', comma=False)], [], False,
+                   [dw([t], gen_T())], [Variant(I('A'), 'tuple', [Field(0, "&'a T", [])])])
+        yield Item('enum', I('A'), [Param('lt', "'a"), Param('ty', 'T'), Param('const', 'N', 'usize', comma=False)], [], False,
+                   [dw([t], gen_T())], [Variant(I('X'), 'tuple', [Field(0, "&'a [T; N]", [])]), Variant(I('Y'), 'unit', [])])
+        # control: accepted (the bound list names a type that is no parameter)
+        yield Item('struct', I('A'), [Param('ty', 'T'), Param('const', 'N', 'usize', comma=False)], [], False,
+                   [dw([t], [Gen('nobound', '[T; N]')])], [Variant(I('A'), 'tuple', [Field(0, '[T; N]', [])])])
     # empty attributes, empty items, no traits
     yield st([Attr('dw', Body([]))])
     yield st([dw(['Clone']), Attr('dw', Body([]))])
@@ -635,10 +659,43 @@ def e_foreign():
                         Variant(I('Y'), 'tuple', fields('tuple'), [], None, fa + ' ')])
 
 
+def e_lacking():
+    """A field whose type lacks exactly the traits it is skipped for (C06/C17: "the type of a skipped field need not
+    implement the traits it is skipped for"), for every way of skipping: on the field (a group list, bare, several lists,
+    several attributes), on its struct or variant (`skip_inner`), and both at once for different groups -- the union of
+    the two counts, whichever is written where.  The probe types `NoDbg`, `NoCmp`, `NoEq`, `NoHash` exist in
+    exec/prelude.rs, so these items are also run by B and C."""
+    T2 = [Param('ty', 'T', comma=True), Param('ty', 'U', comma=False)]
+    PHU = '::core::marker::PhantomData<U>'
+    cases = [('Debug', 'NoDbg', ['Debug', 'PartialEq', 'Hash'], ['EqHashOrd', 'Hash']),
+             ('EqHashOrd', 'NoCmp', ['PartialEq', 'Eq', 'PartialOrd', 'Ord', 'Hash', 'Debug'], ['Debug']),
+             ('EqHashOrd', 'NoEq', ['PartialEq', 'Eq', 'Debug', 'Hash'], ['Debug']),
+             ('Hash', 'NoHash', ['Hash', 'PartialEq', 'Debug'], ['Debug']),
+             ('EqHashOrd', 'NoHash', ['Hash', 'PartialEq', 'Eq', 'Debug'], ['Debug'])]
+    for g, ty, traits, others in cases:
+        ways = [([opt(skip_meta([g]))], None), ([opt('skip')], None), ([], skip_meta([g], 'skip_inner')),
+                ([], MPathM('skip_inner'))]
+        for h in others:
+            ways += [([opt(skip_meta([h]))], skip_meta([g], 'skip_inner')),          # parent covers g, the field adds h
+                     ([opt(skip_meta([g]))], skip_meta([h], 'skip_inner')),          # the field covers g, the parent adds h
+                     ([opt(skip_meta([g]), skip_meta([h]))], None), ([opt(skip_meta([h]), skip_meta([g]))], None),
+                     ([opt(skip_meta([h])), opt(skip_meta([g]))], None), ([opt(skip_meta([h, g]))], None)]
+        for fbodies, parent in ways:
+            for shape in ('tuple', 'named'):
+                def fields():
+                    nm = (lambda i, n: I(n) if shape == 'named' else i)
+                    return [Field(nm(0, 'a'), 'T', []), Field(nm(1, 'b'), ty, list(fbodies)), Field(nm(2, 'c'), PHU, [])]
+                attrs = [dw(traits, gen_T())] + ([Attr('dw', opt(parent))] if parent is not None else [])
+                yield Item('struct', I('A'), T2, [], False, attrs, [Variant(I('A'), shape, fields())])
+                yield Item('enum', I('A'), T2, [], False, [dw(traits, gen_T())],
+                           [Variant(I('X'), shape, fields(), [opt(parent)] if parent is not None else []),
+                            Variant(I('Y'), 'tuple', [Field(0, 'T', [])])])
+
+
 ENUMERATORS = {
     'skip': e_skip, 'incomparable': e_incomparable, 'discriminants': e_discriminants, 'default': e_default,
     'bounds': e_bounds, 'zeroize': e_zeroize, 'debug': e_debug, 'invalid': e_invalid, 'names': e_names,
-    'fieldopts': e_fieldopts, 'foreign': e_foreign,
+    'fieldopts': e_fieldopts, 'foreign': e_foreign, 'lacking': e_lacking,
 }
 
 
